@@ -273,7 +273,8 @@ class UnView(Operation):
         # dℒ/d(base) = [0., 0., g2]
         # dℒ/d(view) = [g0, g1]
         if index == 0:  # compute dℒ/d(base)
-            grad = grad.copy()
+            # keep the memory layout: the view-fns must produce views of the copy
+            grad = grad.copy(order="K")
             grad_view = grad
             for fn in self._view_fn_seq:
                 grad_view = fn(grad_view)
